@@ -479,3 +479,31 @@ impl<T, S> std::fmt::Debug for HashSet<T, S> {
         f.write_str("VSet")
     }
 }
+
+impl<K: Eq, V, S: Default> std::iter::FromIterator<(K, V)> for HashMap<K, V, S> {
+    fn from_iter<I: IntoIterator<Item = (K, V)>>(it: I) -> Self {
+        let mut m = HashMap::with_hasher(S::default());
+        for (k, v) in it {
+            m.insert(k, v);
+        }
+        m
+    }
+}
+impl<K: Clone, V: Clone, S> Clone for HashMap<K, V, S> {
+    fn clone(&self) -> Self {
+        let mut m = HashMap { slots: [MaybeUninit::uninit(), MaybeUninit::uninit(), MaybeUninit::uninit(), MaybeUninit::uninit()], len: 0, _s: PhantomData };
+        let mut i = 0;
+        while i < self.len {
+            let p = self.at(i);
+            m.slots[i].write((p.0.clone(), p.1.clone()));
+            m.len += 1;
+            i += 1;
+        }
+        m
+    }
+}
+impl<K: Eq, V, S: Default> Default for HashMap<K, V, S> {
+    fn default() -> Self {
+        HashMap::with_hasher(S::default())
+    }
+}
